@@ -31,9 +31,9 @@ res $OUT apply ok
 # 3. existing suite with the change (demo removed)
 rm -f $WT/$DEMODIR/zz_demo_test.go
 (cd $WT && timeout 1800 go test -vet=off -count=1 -timeout 25m ./... > $OUT/v_suite.log 2>&1); res $OUT suite_exit $?
-grep -E "^(FAIL|---|panic)" $OUT/v_suite.log | head -20 > $OUT/v_suite_fail.txt
+grep -a -E "^(FAIL|---|panic)" $OUT/v_suite.log | head -20 > $OUT/v_suite_fail.txt
 # rerun failing packages alone (load flakes)
-FAILPK=$(grep -E "^FAIL\s" $OUT/v_suite.log | awk '{print $2}' | sort -u | tr '\n' ' ')
+FAILPK=$(grep -a -E "^FAIL\s" $OUT/v_suite.log | awk '{print $2}' | sort -u | tr '\n' ' ')
 if [ -n "$FAILPK" ]; then (cd $WT && timeout 1500 go test -vet=off -count=1 $FAILPK > $OUT/v_suite_rerun.log 2>&1); res $OUT suite_rerun_exit $?; res $OUT suite_failed_pkgs "$FAILPK"; fi
 git checkout -q -- . ; git clean -fdq
 cat $OUT/validate.json
